@@ -1,6 +1,6 @@
 (* props/C07.v - C07: moves are accepted by the Metropolis rule. *)
 From Coq Require Import ZArith NArith List Bool Reals Floats.
-From PV Require Import Num NumR model.Optimiser model.OptSpec proofs.OptStruct proofs.OptLoop proofs.FloatFacts proofs.RealFacts.
+From PV Require Import Num NumR model.Optimiser model.OptSpec proofs.OptStruct proofs.OptLoop proofs.FloatFacts proofs.FloatZero proofs.HillClimb proofs.RealFacts.
 
 Theorem C07_undefined_never_accepted :
   forall (NN : Num) (fexp : carrier NN -> carrier NN) (thr old k : carrier NN), accept NN fexp
@@ -27,6 +27,12 @@ Theorem C07_nan_never_accepted_binary64 :
     new) old kT = false.
 Proof. exact F_accept_nan. Qed.
 Print Assumptions C07_nan_never_accepted_binary64.
+
+Theorem C07_worse_never_accepted_at_zero_binary64 :
+  forall fexp : F -> F, fexp neg_infinity = 0%float -> forall thr old new : F, fltb new old =
+    true -> fleb 0 thr = true -> accept NumF fexp thr (Some new) old 0%float = false.
+Proof. exact F_accept_zero_worse. Qed.
+Print Assumptions C07_worse_never_accepted_at_zero_binary64.
 
 Theorem C07_better_always_accepted_real :
   forall thr old new kT : R, (old < new)%R -> accept NumR exp thr (Some new) old kT = true.
